@@ -113,7 +113,6 @@ ghost var gLifeSpec int   // the spec handed to the object's method
 ghost var gLifePrev int   // Inherit: the instance handed over as previous generation
 func (e *ObjectEntity) InitWithRecovery(muxMapper context.MuxMapper)
   flag allocates
-  flag frame=unchecked
   requires e != nil
   assume every-entity-is-built-with-an-instance: e.instance != nil
   modifies inits, gLifeSpec, e.generation
@@ -125,7 +124,6 @@ func (e *ObjectEntity) InitWithRecovery(muxMapper context.MuxMapper)
 
 func (e *ObjectEntity) InheritWithRecovery(previousEntity *ObjectEntity, muxMapper context.MuxMapper)
   flag allocates
-  flag frame=unchecked
   requires e != nil && previousEntity != nil
   assume every-entity-is-built-with-an-instance: e.instance != nil
   modifies inherits, inhPrev, gLifeSpec, gLifePrev, e.generation
@@ -144,7 +142,6 @@ iface (o Object) Close()
   flag allocates
 func (e *ObjectEntity) CloseWithRecovery()
   flag allocates
-  flag frame=unchecked
   requires e != nil
   assume every-entity-is-built-with-an-instance: e.instance != nil
   modifies closes
